@@ -434,6 +434,20 @@ func (x *Exec) evalBinary(ce *CEnv, n *EBinary) *Val {
 	}
 	a := x.eval(ce, n.X)
 	c := x.eval(ce, n.Y)
+	if n.Op == "*" && (isStructLike(a.Typ) != isStructLike(c.Typ)) {
+		// scalar * vector
+		vec, sc := a, c
+		if isStructLike(c.Typ) {
+			vec, sc = c, a
+		}
+		sc = x.coerce(sc, float64T)
+		si := x.so.StructInfo(vec.Typ)
+		fs := make([]*smt.Term, len(si.Fields))
+		for i := range fs {
+			fs[i] = x.fArith("*", x.fieldOf(vec.T, vec.Typ, i), sc.T)
+		}
+		return &Val{Typ: vec.Typ, T: x.mkStruct(vec.Typ, fs)}
+	}
 	a, c = x.unify(a, c)
 	switch n.Op {
 	case "==", "!=":
@@ -702,6 +716,13 @@ func (x *Exec) evalCall(ce *CEnv, n *ECall) *Val {
 func (x *Exec) evalMethodCall(ce *CEnv, recv *Val, name string, argEs []Expr) *Val {
 	t := recv.Typ
 	if it, ok := t.Underlying().(*types.Interface); ok {
+		if f, rv := x.devirt(recv, name); f != nil {
+			args := []*Val{rv}
+			for k, a := range argEs {
+				args = append(args, x.coerce(x.eval(ce, a), f.Signature.Params().At(k).Type()))
+			}
+			return x.specInline(ce, f, args)
+		}
 		for i := 0; i < it.NumMethods(); i++ {
 			m := it.Method(i)
 			if m.Name() == name {
@@ -762,7 +783,12 @@ func (x *Exec) specInline(ce *CEnv, f *ssa.Function, args []*Val) *Val {
 	}
 	bc := &blockCtx{fr: &Frame{fn: fr.fn, act: fr.act, prefix: "spec/", cells: fr.cells, depth: 1, safety: false}, reach: guard, st: ce.st.clone(), env: newEnv(nil)}
 	x.spec++
-	defer func() { x.spec-- }()
+	defer func() {
+		x.spec--
+		// allocations and writes made by the specification-level call stay
+		// visible to the rest of this specification (ghost execution)
+		ce.st = bc.st
+	}()
 	if r, ok := x.modelCall(bc, nil, name, f, args); ok {
 		return r
 	}
